@@ -521,6 +521,17 @@ func applyStep(s opStep, model map[string]interface{}) event.Option {
 			model[k] = fmt.Sprint(v)
 		}
 		return event.CopyFrom(s.Map)
+	case "IfAbsent":
+		// a caller-written option that looks at the event it is applied to (Has-guarded store)
+		k, v := s.Arg, s.Port
+		if _, ok := model[k]; !ok {
+			model[k] = fmt.Sprint(v)
+		}
+		return func(e event.Event) {
+			if !e.Has(k) {
+				e.Store(k, v)
+			}
+		}
 	}
 	panic("unknown op " + s.Op)
 }
@@ -539,34 +550,8 @@ func checkOps(c opsCase, viaNewWith bool) error {
 		e = event.New(opts[:len(opts)/2]...)
 		e = event.Apply(e, opts[len(opts)/2:]...)
 	}
-	got := map[string]string{}
-	e.Range(func(k, v interface{}) bool {
-		ks := k.(string)
-		switch ks {
-		case "error":
-			got[ks] = "<error>"
-		case "stacktrace":
-			got[ks] = "<stack>"
-		default:
-			got[ks] = fmt.Sprint(v)
-		}
-		return true
-	})
-	if _, ok := got["date"]; !ok {
-		return fmt.Errorf("event has no date")
-	}
-	if model["date"] == "<date>" {
-		got["date"] = "<date>"
-	}
-	for k, v := range model {
-		if got[k] != v {
-			return fmt.Errorf("key %q = %q, model says %q", k, got[k], v)
-		}
-	}
-	for k := range got {
-		if _, ok := model[k]; !ok {
-			return fmt.Errorf("unexpected key %q in event", k)
-		}
+	if err := compareModel(e, model); err != nil {
+		return err
 	}
 	if _, err := serialises(e); err != nil {
 		return err
